@@ -1,5 +1,6 @@
 NP = "np_algo_h"
 PROP = dict(
+    extractors=['set_frequency_call_sites'],
     functions=[
         "ntp_proto::algorithm::kalman::KalmanClockController::<RecClock>::{steer_frequency, change_desired_frequency, steer_offset (slew branch), time_update} (real code through hooks)",
         "call-site census (syntactic, by reading: `grep -rn 'set_frequency(' /repo/ntp-proto/src`): the only caller of NtpClock::set_frequency in ntp-proto is steer_frequency (algorithm/kalman/mod.rs:339); steer_frequency is called from change_desired_frequency and update_clock, change_desired_frequency from steer_offset (slew) and time_update. new() only reads the kernel frequency.",
